@@ -226,7 +226,11 @@ def rule_R1_header(ctx):
     # Header: Display = ["?"] name ["=[" value "]"] ; parser = opt(char('?')) name opt("=[" until("]") "]")
     try:
         pb = P.fn("db_parse::parse_http_header")
-        kv = P.fn("db_parse::parse_header_key_value")
+        # the name / value part has its own helper on the reference tree; written inline it is part of parse_http_header itself
+        try:
+            kv = P.fn("db_parse::parse_header_key_value")
+        except AnchorMissing:
+            kv = pb
         db = G.display_body(P, "huginn_net_db::http::Header")
     except AnchorMissing as e:
         ctx.cannot("R1", "Header", str(e))
@@ -671,19 +675,34 @@ def rule_header_name_class(ctx):
     all ASCII letters, digits and `-` (Content-MD5, P3P, X-Forwarded-For ..) and stops at the separators of the signature syntax"""
     import string
     P = ctx.program
-    b = P.fn("db_parse::parse_header_key_value")
-    S = T.Slicer(b, P)
+    bs = []
+    for nm in ("db_parse::parse_header_key_value", "db_parse::parse_http_header"):
+        try:
+            bs.append(P.fn(nm))
+        except AnchorMissing:
+            pass
+    if not bs:
+        raise AnchorMissing("neither parse_header_key_value nor parse_http_header found")
     got = None
-    for blk, t in Q.calls(b, ["take_while", "take_while1", "take_till", "take_till1"]):
-        a = Q.call_args(b, S, blk, t)
-        cl = T.strip(a[0])
-        if cl[0] == "agg" and cl[1] == "closure" and cl[2] in P.bodies:
-            cls = char_class(P, P.bodies[cl[2]])
-            if cls is not None:
-                if callee_of(t).rsplit("::", 1)[-1].startswith("take_till"):
-                    cls = {chr(k) for k in range(128)} - cls
-                got = cls
-                break
+    for b in bs:
+        S = T.Slicer(b, P)
+        for blk, t in Q.calls(b, ["take_while", "take_while1", "take_till", "take_till1"]):
+            a = Q.call_args(b, S, blk, t)
+            cl = T.strip(a[0])
+            pred = None
+            if cl[0] == "agg" and cl[1] == "closure" and cl[2] in P.bodies:
+                pred = P.bodies[cl[2]]
+            elif G._fn_const(cl) in P.bodies:
+                pred = P.bodies[G._fn_const(cl)]        # `take_while(is_name_char)`: a named predicate
+            if pred is not None:
+                cls = char_class(P, pred)
+                if cls is not None:
+                    if callee_of(t).rsplit("::", 1)[-1].startswith("take_till"):
+                        cls = {chr(k) for k in range(128)} - cls
+                    got = cls
+                    break
+        if got is not None:
+            break
     if got is None:
         ctx.cannot("R3", "header-name:class", "the character class of header names could not be evaluated", ctx.loc(b))
         return
